@@ -40,6 +40,8 @@ EVENTS = {
     "sys_exit_empty_str": ("sys.exit('')", 1),
     "sys_exit_float0": ("sys.exit(0.0)", 1),
     "sys_exit_list": ("sys.exit([])", 1),
+    "caught_exit0_then_exit3": ("\n    try:\n        sys.exit(0)\n    except SystemExit:\n        pass\n    sys.exit(3)", 3),
+    "caught_exit3_then_exit0": ("\n    try:\n        sys.exit(3)\n    except SystemExit:\n        pass\n    sys.exit(0)", 0),
     "raise_systemexit_0": ("raise SystemExit(0)", 0),
     "raise_systemexit_none": ("raise SystemExit()", 0),
     "raise_systemexit_2": ("raise SystemExit(2)", 2),
